@@ -183,11 +183,15 @@ func parseUnit(s string) (unit, error) {
 }
 
 func parseScenario(f []string) (sc scenario, err error) {
-	// f = tee state0 rr rt others clear prot oracle
-	if len(f) < 8 {
+	// f = tee explicit domain state0 rr rt others clear prot oracle
+	if len(f) < 10 {
 		return sc, fmt.Errorf("short run line")
 	}
 	sc.tee, _ = strconv.Atoi(f[0])
+	sc.explicit = f[1] == "1"
+	sc.domain, _ = strconv.Atoi(f[2])
+	sc.domain %= 4
+	f = f[2:]
 	st, _ := strconv.Atoi(f[1])
 	sc.state0 = uint8(st)
 	if f[4] != "-" {
@@ -344,6 +348,7 @@ type pick struct {
 }
 
 type result struct {
+	hello    string   // N<name> when a ClientHello left during NewSession, else ""
 	clearEv  []string // what the client wrote in clear text, classified
 	protEv   []string // what it wrote inside the TLS layer
 	outcome  string
@@ -362,6 +367,9 @@ type result struct {
 func (r result) trace() string {
 	var ev []string
 	ev = append(ev, r.clearEv...)
+	if r.hello != "" {
+		ev = append(ev, r.hello)
+	}
 	for _, e := range r.protEv {
 		ev = append(ev, strings.ToUpper(e[:1])+e[1:])
 	}
@@ -462,10 +470,11 @@ func classify(b []byte) []string {
 }
 
 type ctx struct {
-	r   *common.Run
-	pki *pki
-	rr  bool // features.go ORs Ready into a result that carries a new ReadWriter
-	rt  bool // features.go re-tests the masks of a cached feature when it is selected
+	r           *common.Run
+	pki         *pki
+	teeNegFails int
+	rr          bool // features.go ORs Ready into a result that carries a new ReadWriter
+	rt          bool // features.go re-tests the masks of a cached feature when it is selected
 }
 
 // startTLSFeature wraps base (a value returned by xmpp.StartTLS) so that its
@@ -685,6 +694,20 @@ func (c *ctx) exec(sc scenario, base *xmpp.StreamFeature) (res result) {
 	res.prot = append([]byte(nil), peer.prot...)
 	peer.mu.Unlock()
 	if tlsStart >= 0 {
+		// a ClientHello left before NewSession returned (not one triggered by the probe)
+		res.hello = "N?"
+		if len(res.sni) > 0 {
+			switch {
+			case res.sni[0] == "explicit.example":
+				res.hello = "Nex"
+			default:
+				for k, d := range domains {
+					if d == res.sni[0] {
+						res.hello = fmt.Sprintf("Nd%d", k)
+					}
+				}
+			}
+		}
 		res.rawClear = out[:tlsStart]
 	} else {
 		res.rawClear = out
